@@ -61,6 +61,14 @@ func ProfileByName(name string) *Profile {
 		p.NoStaleCtx = true
 		p.BudgetPct = 0
 		p.Tmpls = tmplsWhere(func(t Tmpl) bool { return !t.Opt && !t.LR })
+	case "c08ns": // left recursion without state blocks (Memoize comparisons)
+		p.LR = true
+		p.MaxRules = 3
+		p.Tmpls = tmplsWhere(func(t Tmpl) bool { return t.LR })
+		p.MemoPct = 100
+		p.NoStaleCtx = true
+		p.Errors = 30
+		p.ScanPct = 45
 	case "c08", "lr": // left recursion
 		p.LR = true
 		p.MaxRules = 3
@@ -103,6 +111,7 @@ func ProfileByName(name string) *Profile {
 		p.Invalid = 0
 		p.AllowInv = 100
 		p.Inputs = 6
+		p.UntilIdiom = 12
 	case "c14", "throw": // throw / recover
 		p.Throw = true
 		p.W[KRec] = 12
@@ -117,6 +126,8 @@ func ProfileByName(name string) *Profile {
 		p.W[KPlus] = 10
 		p.MemoPct = 40
 		p.NoStaleCtx = true
+		p.State = true // state blocks count against the budget like every expression
+		p.W[KStC] = 6
 	case "class": // C15 / case folding
 		p.W[KCls] = 60
 		p.W[KLit] = 10
